@@ -1,6 +1,9 @@
 import Oracle.Common
 import MageModel.Gen.Dispatch
 import MageModel.Gen.List
+import MageModel.Gen.Emit
+import MageModel.Invoke.Sha1
+import MageModel.Generated.TemplateAst
 open Lean MageModel.Parse MageModel.Gen
 namespace Oracle.FE
 
@@ -168,8 +171,23 @@ def textOp (j : Json) : R Json := do
                   let r := help bin i [w]
                   Json.arr #[jstr r.1, Json.num (JsonNumber.fromInt r.2)]).toArray)])
 
+/-- fe.gen: from the declarations to the bytes of the generated main, entirely in the model
+(`primary`, then the interpreter of the regenerated template) -/
+def genOp (j : Json) : R Json := do
+  let p ← proj j
+  let bin ← fldStr j "binary"
+  if !MageModel.Generated.TemplateAst.translatable then throw "the template uses a construct the interpreter does not know"
+  match primary (cfgOf p) (fun path => p.world.lookup path) p.main with
+  | .error e => pure (obj [("build", errJ e)])
+  | .ok i =>
+    let text := MageModel.Gen.Emit.emit MageModel.Generated.TemplateAst.nodes MageModel.Generated.TemplateAst.execCodeLits bin i
+    let bytes := text.toUTF8
+    if (fldBool j "dump").toOption == some true then return obj [("text", jstr text)]
+    pure (obj [("sha1", jstr (MageModel.Invoke.Sha1.hexSum bytes)), ("len", jnat bytes.size)])
+
 def handle (op : String) (j : Json) : R Json :=
   match op with
+  | "fe.gen" => genOp j
   | "fe.text" => textOp j
   | "fe.info" => info j
   | "fe.run" => runOp j
